@@ -418,7 +418,74 @@ def rule_r7(chk):
                     chk.undecided("C05-R7", f"simultaneous._steady._steady_nonlinear[skip {bool(L)},{bool(C)},{bool(E)}]", str(e), m.loc(f))
 
 
+def rule_r10(chk, rid="C05-R10"):
+    chk.rule(rid, "model flags passed to steady / solve / simulate override the model's own flags in BOTH directions: "
+             "Flags.update_from_kwargs gives, for each of linear / flat / deterministic, the keyword's value when it is given and not "
+             "None (an explicit False included) and the model's flag otherwise; Flags.from_kwargs sets exactly the bits whose keyword "
+             "(name or is_name) is true - by finite evaluation on every combination of {absent, None, False, True} x {False, True}",
+             floor=2, shape_independent=True)
+    import itertools
+    from .. import fin
+    m = chk.repo.mod("irispie.simultaneous._flags")
+    f = m.func("Flags.update_from_kwargs")
+    g = m.func("Flags.from_kwargs")
+    chk.saw(m, "Flags.update_from_kwargs")
+    chk.saw(m, "Flags.from_kwargs")
+    names = ("linear", "flat", "deterministic")
+    bits = {"LINEAR": 1, "FLAT": 2, "DETERMINISTIC": 4}
+    ABSENT = object()
+    # from_kwargs
+    bad = None
+    n = 0
+    try:
+        for vals in itertools.product((ABSENT, None, False, True), repeat=3):
+            for prefix in ("", "is_"):
+                kw = {prefix + nm: v for nm, v in zip(names, vals) if v is not ABSENT}
+                cls = fin.FinObj(DEFAULT=0, **bits)
+                got = fin.run_function(g, {params(g)[0]: cls, g.args.kwarg.arg: kw})
+                want = sum(bits[nm.upper()] for nm, v in zip(names, vals) if v is True)
+                n += 1
+                if got != want:
+                    bad = f"from_kwargs({kw}) sets bits {got}, expected {want} (LINEAR=1, FLAT=2, DETERMINISTIC=4)"
+                    break
+            if bad:
+                break
+    except (fin.NotFinite, fin.Raised, AttributeError, IndexError) as ex:
+        chk.undecided(rid, "simultaneous._flags.Flags.from_kwargs", f"not finitely evaluable: {ex}", m.loc(g))
+    else:
+        chk.ob(rid, "simultaneous._flags.Flags.from_kwargs", bad is None, bad or f"{n} keyword combinations: exactly the true keywords set their bit", m.loc(g), sure=True)
+    # update_from_kwargs
+    bad = None
+    n = 0
+    try:
+        for own in itertools.product((False, True), repeat=3):
+            for vals in itertools.product((ABSENT, None, False, True), repeat=3):
+                kw = {nm: v for nm, v in zip(names, vals) if v is not ABSENT}
+                me = fin.FinObj(**{"is_" + nm: o for nm, o in zip(names, own)}, is_nonlinear=not own[0], is_nonflat=not own[1], is_stochastic=not own[2])
+                got = {}
+                klass = fin.FinObj(from_kwargs=lambda **k: got.update(k) or "flags")
+                fin.run_function(f, {params(f)[0]: me, f.args.kwarg.arg: kw}, funcs={"type": lambda o: klass})
+                n += 1
+                for nm, o, v in zip(names, own, vals):
+                    want = o if v in (ABSENT, None) else v
+                    have = bool(got.get(nm) or got.get("is_" + nm))
+                    if have != want:
+                        bad = (f"model flag {nm}={o}, keyword {nm}={'absent' if v is ABSENT else v}: the updated flags have {nm}={have}, expected {want}"
+                               + (" - an explicit False does not switch the flag off" if v is False else ""))
+                        break
+                if bad:
+                    break
+            if bad:
+                break
+    except (fin.NotFinite, fin.Raised, AttributeError, IndexError) as ex:
+        chk.undecided(rid, "simultaneous._flags.Flags.update_from_kwargs", f"not finitely evaluable: {ex}", m.loc(f))
+    else:
+        chk.ob(rid, "simultaneous._flags.Flags.update_from_kwargs", bad is None, bad or f"{n} combinations of model flags and keywords: given keywords win (False included), "
+               "absent / None keywords inherit", m.loc(f), sure=True)
+
+
 def run(chk):
+    chk.guard(rule_r10, chk)
     chk.guard(rule_r1, chk)
     chk.guard(rule_r7, chk)
     chk.guard(rule_r2, chk)
@@ -431,6 +498,8 @@ def run(chk):
     chk.guard(c02.rule_r6, chk, rid="C05-R9", sites=(1, 2, 3, 4))
     from .. import unused as _unused
     chk.guard(_unused.apply, chk, "C05-R91")
+    from .. import variants as _variants
+    chk.guard(_variants.apply_wrappers, chk, "C05-R11", {"simultaneous", "fords", "steadiers", "stacked_time"})
     from .. import args as _args
     chk.guard(_args.apply, chk, "C05-R90", {'incidences', 'simultaneous', 'steadiers'}, 1)
     chk.assumptions = [
